@@ -47,14 +47,25 @@ def as_iterable(items, form):
     return reversed(list(reversed(items)))
 
 
-def perform(o, family, form=0):
-    """Run the call of observation/vector `o` on fresh objects of `family`; return the observation of the real code."""
+def perform(o, family, form=0, quiet=False):
+    """Run the call of observation/vector `o` on fresh objects of `family`; return the observation of the real code.
+
+    quiet: the harness reads nothing between building the pre-state and the end of the call (no snapshots inside hooks, no
+    verification read of the built state) -- derived data cached by the library across the steps of one call, or since an
+    earlier read, is then not refreshed by the harness's own reads."""
     from . import nodes as N
 
     k = o["k"]
     skip = (o["n"],) if k == "ct" else ()
     steps = N.build_forest(family, o["prepar"], o["prech"], skip=skip)
-    built = N.snapshot()
+    N.Ctx.snap_hooks = not quiet
+    if quiet:
+        # one read of every node's children long before the call (what a cache would remember) ...
+        for obj in N.Ctx.objs.values():
+            obj.children
+        built = (dict(o["prepar"]), {k: list(v) for k, v in o["prech"].items()})
+    else:
+        built = N.snapshot()
     if k == "ct":
         built[0][o["n"]] = "Nil"
         built[1][o["n"]] = []
@@ -91,7 +102,11 @@ def perform(o, family, form=0):
         src = getattr(e, "src", 0) if exc == "HookFault" else 0
     log = N.Ctx.log
     N.Ctx.log = None
+    N.Ctx.snap_hooks = True
     postpar, postch = N.snapshot()
+    if quiet:
+        for e in log:       # no snapshots were taken: the judge gets the final state as a stand-in (haslog = False there)
+            e["par"], e["ch"] = postpar, postch
     if k == "ct" and o["n"] not in postpar:
         postpar[o["n"]] = "Nil"
         postch[o["n"]] = []
@@ -196,3 +211,28 @@ def strip_snap(o):
     o = dict(o)
     o["log"] = [{k: v for k, v in e.items() if k not in ("par", "ch")} for e in o["log"]]
     return o
+
+
+def replay_chunk_quiet(args):
+    """Vectors replayed without any harness read during the call; only outcome and final forest are compared."""
+    import json
+    import zlib
+
+    lines, families = args
+    out = {"n": 0, "same": 0, "attention": [], "dropped": 0}
+    for line in lines:
+        vec = json.loads(json.loads(line))
+        pred = expand(vec["o"])
+        if pred["exc"] == "RecursionError" or pred["v"] == "NonNode" or "NonNode" in pred["xs"]:
+            continue
+        form0 = zlib.crc32(line.encode()) % 6
+        for fam in families:
+            out["n"] += 1
+            obs = perform(pred, fam, form0, quiet=True)
+            if obs["exc"] == pred["exc"] and obs["postpar"] == pred["postpar"] and obs["postch"] == pred["postch"]:
+                out["same"] += 1
+            elif len(out["attention"]) < 6:
+                out["attention"].append({"family": fam, "pred": pred, "obs": obs, "flags": {k: vec[k] for k in ("c01", "c02", "c03", "c03a", "c16")}, "why": "quiet"})
+            else:
+                out["dropped"] += 1
+    return out
